@@ -30,3 +30,11 @@ func init() {
 		}
 	}
 }
+
+func init() {
+	eng.Internal["dbg-rendera-corpus"] = func(args []string) {
+		for _, n := range []int{100, 250, 1500} {
+			fmt.Println(n, len(c28CorpusInputs(n)))
+		}
+	}
+}
